@@ -57,4 +57,13 @@ bits, put `rewritePfx << (32 - depth)` on top (32-bit unsigned arithmetic; a shi
 def anycastRewrite (addr4 depth rewritePfx : BitVec 32) : BitVec 32 :=
   (addr4 &&& ((1#32 <<< (32#32 - depth).toNat) - 1#32)) ||| (rewritePfx <<< (32#32 - depth).toNat)
 
+/-- `x <<< n` computed without materialising a huge intermediate number when the count is ≥ the width (equal to
+`x <<< n`, lemma `shlGuard_eq`); used by the executable driver only -/
+def shlGuard {w : Nat} (x : BitVec w) (n : Nat) : BitVec w := if n < w then x <<< n else 0#w
+
+/-- `anycastRewrite` in a form that is cheap to execute for absurd depths (`anycastRewriteExec_eq`) -/
+def anycastRewriteExec (addr4 depth rewritePfx : BitVec 32) : BitVec 32 :=
+  let n := (32#32 - depth).toNat
+  (addr4 &&& (shlGuard 1#32 n - 1#32)) ||| shlGuard rewritePfx n
+
 end Tongo.Shard
